@@ -133,7 +133,8 @@ fn strong_cfg(known_shapes: bool) -> AspCfg {
         }
     } else {
         AspCfg {
-            preds: vec![("p".into(), 1), ("hp".into(), 1), ("tp".into(), 2), ("q_i".into(), 1), ("s".into(), 0), ("x__s".into(), 1), ("r_g".into(), 0), ("w".into(), 11)],
+            // (q_i at two arities: a recorded finding of C09 for the text; the trees are still judged by C12)
+            preds: vec![("p".into(), 1), ("hp".into(), 1), ("tp".into(), 2), ("q_i".into(), 1), ("q_i".into(), 2), ("s".into(), 0), ("x__s".into(), 1), ("r_g".into(), 0), ("w".into(), 11)],
             vars: vec!["X".into(), "Y".into(), "V1".into()],
             syms: vec!["a".into(), "s".into(), "b_s".into(), "aB_1".into(), "a1".into(), "a_".into(), "ab".into(), "s0".into(), "sA".into(), "r_g".into(), "location_b".into(), "location_a".into(), "locationA".into(), "constant2".into(), "constant10".into(), "constant".into(), "constant_".into()],
             num_lo: -2,
@@ -163,6 +164,8 @@ pub struct Built {
     pub description: String,
     pub strong: bool,
     pub tricky: bool,
+    /// the two programs of a strong-equivalence task as given to anthem (after injected rules)
+    pub strong_programs: Option<(asp::Program, asp::Program)>,
 }
 
 /// build the problems of a task case; Err(outcome) when the case has to be skipped
@@ -178,6 +181,24 @@ pub fn build_mode(case: &TaskCase, known_shapes: bool, symbol_like_predicate: bo
         TaskCase::Strong { left, right, mu, choices } => {
             let mut c = Chooser::new(choices.clone());
             let flags = gt::flags(&mut c);
+            // one pair in six gets a propositional atom `e0` that occurs in redundant rules only (`e0 :- e0.`,
+            // which simplification reduces to #true) next to a symbolic constant spelled like its here- or
+            // there-copy (`he0`, `te0`): the copies are predicates of every problem whatever simplification
+            // leaves of the rules, so the constant has to be renamed
+            let (mut left, mut right) = (left.clone(), right.clone());
+            if !known_shapes && c.aux(160, 6) == 0 {
+                let redundant = ["e0 :- e0.", "e0 :- e0, e0.", "e0 :- not not e0, e0."][c.aux(161, 3)];
+                let constant = ["he0", "te0"][c.aux(162, 2)];
+                let user = ["p", "x__s", "q_i"][c.aux(163, 3)];
+                if let (Ok(r1), Ok(r2)) = (redundant.parse::<asp::Rule>(), format!("{user}({constant}).").parse::<asp::Rule>()) {
+                    left.rules.push(r1.clone());
+                    if c.aux(164, 2) == 0 {
+                        right.rules.push(r1);
+                    }
+                    if c.aux(165, 2) == 0 { left.rules.push(r2) } else { right.rules.push(r2) }
+                }
+            }
+            let (left, right) = (&left, &right);
             let problems = ops::strong_problems(left, right, &flags, *mu);
             Ok(Built {
                 source_symbols: gt::program_symbols(left).into_iter().chain(gt::program_symbols(right)).collect(),
@@ -190,6 +211,7 @@ pub fn build_mode(case: &TaskCase, known_shapes: bool, symbol_like_predicate: bo
                 ),
                 strong: true,
                 tricky: true,
+                strong_programs: Some((left.clone(), right.clone())),
             })
         }
         TaskCase::External { choices } => {
@@ -262,6 +284,7 @@ pub fn build_mode(case: &TaskCase, known_shapes: bool, symbol_like_predicate: bo
                     ),
                     strong: false,
                     tricky: true,
+                    strong_programs: None,
                 }),
                 Err((variant, msg)) => Err(Outcome::fail(
                     format!("valid-task-refused:{variant}"),
@@ -541,6 +564,40 @@ impl Check for C12 {
                     format!("C12: declared symbolic constants {declared_set:?} differ from the symbols of the formulas {tree_symbols:?}\n{}", built.description),
                 );
             }
+            // one transition axiom per predicate of the two programs, name and arity (judged on the syntax
+            // trees, before the type check: a name at two arities makes the text ill-typed, a recorded finding
+            // of C09, but each of the two predicates still needs its axiom)
+            if let Some((left, right)) = &built.strong_programs {
+                let mut preds: BTreeSet<(String, usize)> = BTreeSet::new();
+                for program in [left, right] {
+                    for r in &program.rules {
+                        if let asp::Head::Basic(a) | asp::Head::Choice(a) = &r.head {
+                            preds.insert((a.predicate_symbol.clone(), a.terms.len()));
+                        }
+                        for f in &r.body.formulas {
+                            if let asp::AtomicFormula::Literal(l) = f {
+                                preds.insert((l.atom.predicate_symbol.clone(), l.atom.terms.len()));
+                            }
+                        }
+                    }
+                }
+                let mut covered: BTreeSet<(String, usize)> = BTreeSet::new();
+                for f in p.formulas.iter().filter(|f| f.name.contains("transition_axiom")) {
+                    let mut sig = crate::ir::Signature::default();
+                    crate::ir::lower(&f.formula).signature(&mut sig);
+                    for (n, a) in &sig.preds {
+                        if let Some(base) = n.strip_prefix('h') {
+                            covered.insert((base.to_string(), *a));
+                        }
+                    }
+                }
+                if covered != preds {
+                    return Outcome::fail(
+                        "transition-axiom-coverage",
+                        format!("C12: transition axioms cover {covered:?}, the programs' predicates are {preds:?}\n{}", built.description),
+                    );
+                }
+            }
             let checked = match tff::check(&p.text) {
                 Ok(c) => c,
                 Err(_) => return Outcome::skip("problem not well-formed (reported by C09)"),
@@ -690,8 +747,8 @@ impl Check for C12 {
             }
             // transition axioms
             if built.strong {
-                let preds: BTreeSet<(String, usize)> = match &case.task {
-                    TaskCase::Strong { left, right, .. } => left
+                let preds: BTreeSet<(String, usize)> = match &built.strong_programs {
+                    Some((left, right)) => left
                         .predicates()
                         .into_iter()
                         .chain(right.predicates())
@@ -1054,4 +1111,53 @@ impl Check for AcceptedNames {
     fn from_replay(&self, j: &Value) -> Option<NameCase> {
         Some(NameCase { ident: j["ident"].as_str()?.to_string(), role: j["role"].as_u64()? as u8, simplify: j["simplify"].as_bool()? })
     }
+}
+
+// ---------------------------------------------------------------------------------------
+// the text of a problem against its syntax tree (used by C02 / C03 / C19 on a sample of their cases)
+
+/// Does every formula of the problem, as its TPTP text says it, have the truth value of its syntax tree under
+/// the interpretation? The semantic oracles of C02, C03 and C19 judge the hooked syntax trees; what the prover
+/// gets is the text. Some(description) on a disagreement; None when they agree or nothing definite can be said
+/// (text the strict reader rejects is C09's business).
+pub fn text_disagrees(p: &ProblemData, i: &Interp, pool: &[Val], budget: i64) -> Option<String> {
+    let checked = tff::check(&p.text).ok()?;
+    let mut constants: BTreeMap<String, ConstKind> = BTreeMap::new();
+    for f in &p.formulas {
+        let mut sig = crate::ir::Signature::default();
+        crate::ir::lower(&f.formula).signature(&mut sig);
+        for s in sig.syms {
+            constants.insert(s.clone(), ConstKind::Symbol(s));
+        }
+        for c in f.formula.function_constants() {
+            let suffix = match c.sort {
+                fol::Sort::General => "g",
+                fol::Sort::Integer => "i",
+                fol::Sort::Symbol => "s",
+            };
+            constants.insert(format!("{}_{suffix}", c.name), ConstKind::Placeholder(c.name.clone()));
+        }
+    }
+    let lowered = tff::lower_all(&checked, &constants).ok()?;
+    for f in &p.formulas {
+        let Some((_, role, text_f)) = lowered.iter().find(|(name, _, _)| *name == f.name) else {
+            return Some(format!("formula {} of problem {} is missing from the text", f.name, p.name));
+        };
+        if (role == "conjecture") != f.conjecture {
+            return Some(format!("formula {} of problem {} has role {role} in the text", f.name, p.name));
+        }
+        let tree_f = crate::ir::lower(&f.formula);
+        let a = Ev::classical(i, pool, true).with_budget(budget).sat(&tree_f, &mut Env::new(), World::T);
+        let b = Ev::classical(i, pool, true).with_budget(budget).sat(text_f, &mut Env::new(), World::T);
+        if let (Some(a), Some(b)) = (a, b) {
+            if a != b {
+                let line = p.text.lines().find(|l| l.contains(&format!("tff({},", f.name))).unwrap_or("");
+                return Some(format!(
+                    "formula {} of problem {}: the syntax tree is {a} in the interpretation, the emitted text is {b}\n  tree: {}\n  text: {line}",
+                    f.name, p.name, f.formula
+                ));
+            }
+        }
+    }
+    None
 }
